@@ -408,6 +408,98 @@ func runC01(c *eng.Ctx) {
 	})
 
 	// ---- 10. who may touch the file system ---------------------------------------------------------------------------------------
+	// ---- the reader keeps the sentinel the replay tests for -------------------------------------------------------------------------
+	c.Rule("ERRFLOW", "pkg/bufioutil.bufioEntryReader.Next{read errors keep their identity}", func() {
+		f := c.Fn("pkg/bufioutil.bufioEntryReader.Next")
+		sts := c.Some(f, eng.StoreField("pkg/bufioutil.bufioEntryReader.err"), "br.err = err")
+		var leafOK func(v ssa.Value, seen map[ssa.Value]bool) (bool, string)
+		leafOK = func(v ssa.Value, seen map[ssa.Value]bool) (bool, string) {
+			if seen[v] {
+				return true, ""
+			}
+			seen[v] = true
+			switch x := v.(type) {
+			case *ssa.Const:
+				return x.IsNil(), "constant"
+			case *ssa.Phi:
+				for _, e := range x.Edges {
+					if ok, why := leafOK(e, seen); !ok {
+						return false, why
+					}
+				}
+				return true, ""
+			case *ssa.Extract:
+				return leafOK(x.Tuple, seen)
+			case *ssa.Call:
+				g := x.Common().StaticCallee()
+				if g == nil || g.Pkg == nil {
+					return false, "result of " + p.Desc(x)
+				}
+				switch g.Pkg.Pkg.Path() + "." + g.Name() {
+				case "io.ReadFull", "encoding/binary.ReadUvarint", "io.ReadAtLeast":
+					return true, ""
+				case "fmt.Errorf":
+					if k, ok := x.Common().Args[0].(*ssa.Const); ok && strings.Contains(k.Value.ExactString(), "%w") {
+						return true, ""
+					}
+					return false, "fmt.Errorf without %w: the cause (io.ErrUnexpectedEOF for a record cut short) is flattened into text"
+				}
+				return false, "result of " + g.String()
+			}
+			return false, p.Desc(v)
+		}
+		for i, st := range sts {
+			ok, why := leafOK(st.Instr.(*ssa.Store).Val, map[ssa.Value]bool{})
+			c.Check(ok, fmt.Sprintf("identity-kept[%d]", i), st.Instr, f,
+				"the error the entry reader reports is the reading function's own error value or wraps it with %w: the manifest replay recognises a record cut short by errors.Is(err, io.ErrUnexpectedEOF) and treats it as the end of the log",
+				why)
+		}
+	})
+
+	// ---- family ids are the store's own sequence ----------------------------------------------------------------------------------------
+	c.Rule("PROV", "kv.store.CreateFamily{id of a new family = next value of the store's sequence}", func() {
+		f := c.Fn("kv.store.CreateFamily")
+		n := 0
+		for _, b := range f.Blocks {
+			for _, in := range b.Instrs {
+				st, ok := in.(*ssa.Store)
+				if !ok {
+					continue
+				}
+				fa, ok := st.Addr.(*ssa.FieldAddr)
+				if !ok || eng.FieldKeyOfAddr(fa) != "kv.FamilyOption.ID" {
+					continue
+				}
+				n++
+				fromSeq := eng.DependsOnField(st.Val, "kv.store.familySeq")
+				fromArg := eng.DependsOnField(st.Val, "kv.FamilyOption.ID")
+				c.Check(fromSeq && !fromArg, fmt.Sprintf("id-from-sequence[%d]", n), in, f, "the id written into the store info is taken from s.familySeq", "stores "+p.Desc(st.Val))
+				conds, _ := eng.GuardingConds(f, in)
+				for _, cd := range conds {
+					c.Check(!eng.DependsOnField(cd, "kv.FamilyOption.ID"), fmt.Sprintf("id-not-optional[%d]", n), in, f,
+						"whether a new family gets a fresh id does not depend on the id in the option the caller passed: rollup creates target families with the SOURCE family's option (id included), and the manifest keys every record by family id",
+						"assignment guarded by "+p.Desc(cd))
+				}
+			}
+		}
+		c.Check(n >= 1, "id-assigned", nil, f, "CreateFamily assigns the id of a new family", "")
+		// the sequence never moves to a caller-supplied value
+		for _, fn := range p.FuncsWithPrefix("kv.store.") {
+			for _, b := range fn.Blocks {
+				for _, in := range b.Instrs {
+					fa, method, call := eng.AtomicOp(in)
+					if fa == nil || eng.FieldKeyOfAddr(fa) != "kv.store.familySeq" || method != "Store" {
+						continue
+					}
+					args := eng.CallArgs(call)
+					v := args[len(args)-1]
+					c.Check(!eng.DependsOnField(v, "kv.FamilyOption.ID") || p.FuncKey(fn) != "kv.store.CreateFamily", "sequence-set@"+p.FuncKey(fn), in, fn,
+						"the family sequence is set only from the persisted store info (on open), never from a CreateFamily argument", "stores "+p.Desc(v))
+				}
+			}
+		}
+	})
+
 	c.Rule("OWNER", "kv{file-system mutators}", func() {
 		owner(c, "call of writeFileFunc", eng.AnyCallTo("var:kv/version.writeFileFunc"), []string{vsT + ".setCurrent"}, 1)
 		owner(c, "call of renameFunc", eng.AnyCallTo("var:kv/version.renameFunc"), []string{vsT + ".setCurrent"}, 1)
